@@ -186,11 +186,11 @@ func recordTrace(p *eng.Program, scratch string, idx int) (trace []eng.FOp, mark
 	defer eng.DeactivateFS()
 	r := eng.NewRunner(p, eng.Oracles{Store: true}, dir)
 	r.E.FS = fs
-	r.E.D.OnCross = func(point string) {
+	r.E.D.SetOnCross(func(point string) {
 		if strings.HasPrefix(point, "store.") {
 			fs.SetPhase(point)
 		}
-	}
+	})
 	r.OnState = func(tree *model.Coll, kind string) {
 		fs.Mark("state after " + kind)
 		marks = append(marks, roundMark{At: fs.Len() - 1, Kind: kind, Tree: tree.Clone(), Hash: tree.Hash()})
